@@ -355,12 +355,17 @@ impl Engine {
             best_mv = best_mv_at;
             best_score = score;
             self.max_depth = depth;
-            depth += 1;
 
             match score {
                 Score::BlackMateIn(_) | Score::WhiteMateIn(_) => break,
                 _ => (),
             }
+
+            // there is nothing deeper to look at once the depth counter is exhausted
+            depth = match depth.checked_add(1) {
+                Some(depth) => depth,
+                None => break,
+            };
         }
 
         (best_mv, best_score)
